@@ -1341,6 +1341,88 @@ theorem C11_heap_finished_filedata_ctor_is_pdu_ctor (conf params pdu : Addr) (s 
     subst e1 e2 e3
     exact ⟨_, _, h6⟩
 
+/-! ### constructors and factories KEEP the caller's object (general; stated as what the code does) -/
+
+/-- `EofPdu(conf, …, fault_location=t)`, `NakPdu(conf, …, segment_requests=l)`, `MetadataPdu(conf, params, options)`,
+    `FinishedPdu(conf, params)`, `FileDataPdu(conf, params)`: the returned PDU holds THE CALLER'S object — the public access
+    path from the returned PDU ends at the very address that was passed in (File Data has no public accessor for its
+    parameter object: stated for the object attribute itself, index 1) -/
+theorem C11_heap_pdu_ctor_keeps_caller_object (conf : Addr) (s : Store) (cc : Cell) (hcc : s[conf]? = some cc) (x : Addr)
+    (hx : x < s.length) (pdu : Addr) (s' : Store) :
+    (∀ size cond, (newEofPdu conf size cond (some x)).run s = some (pdu, s') → followAttrs s' pdu ["fault_location"] = some x) ∧
+    (∀ a b, (newNakPdu conf a b (some x)).run s = some (pdu, s') → followAttrs s' pdu ["segment_requests"] = some x) ∧
+    (∀ o, (newMetadataPdu conf x o).run s = some (pdu, s') → followAttrs s' pdu ["params"] = some x) ∧
+    (∀ p, (newMetadataPdu conf p (some x)).run s = some (pdu, s') → followAttrs s' pdu ["options"] = some x) ∧
+    ((newFinishedPdu conf x).run s = some (pdu, s') → followAttrs s' pdu ["finished_params"] = some x) ∧
+    ((newFileDataPdu conf x).run s = some (pdu, s') → followIdx s' pdu [1] = some x) := by
+  have hx' : ∀ t : Store, x < (s ++ t).length := fun t => by rw [List.length_append]; exact Nat.lt_of_lt_of_le hx (Nat.le_add_right _ _)
+  have key : ∀ (k : PduKind) objs scal af fl dl, (newPdu k conf objs scal af fl dl).run s = some (pdu, s') →
+      ∃ b, s'[pdu]? = some ⟨k.tag, some b :: objs, scal⟩ ∧ x < s'.length := by
+    intro k objs scal af fl dl h
+    rcases newPdu_shape k conf objs scal af fl dl s cc hcc pdu s' h with ⟨_, rfl, rfl⟩ | ⟨_, rfl, rfl⟩
+    · exact ⟨s.length + 1, by simp [List.getElem?_append_right], hx' _⟩
+    · exact ⟨s.length + 2, by simp [List.getElem?_append_right], hx' _⟩
+  refine ⟨?_, ?_, ?_, ?_, ?_, ?_⟩
+  · intro size cond h
+    obtain ⟨b, hp, hl⟩ := key .eof _ _ _ _ _ h
+    simp [followAttrs, followIdx, attr, hp, PduKind.tag, hl]
+  · intro a b h
+    obtain ⟨b', hp, hl⟩ := key .nak [some x] [a, b] false 0 0 h
+    simp [followAttrs, followIdx, attr, hp, PduKind.tag, hl]
+  · intro o h
+    obtain ⟨b, hp, hl⟩ := key .metadata _ _ _ _ _ h
+    simp [followAttrs, followIdx, attr, hp, PduKind.tag, hl]
+  · intro p h
+    obtain ⟨b, hp, hl⟩ := key .metadata _ _ _ _ _ h
+    simp [followAttrs, followIdx, attr, hp, PduKind.tag, hl]
+  · intro h
+    obtain ⟨b, hp, hl⟩ := key .finished _ _ _ _ _ ((C11_heap_finished_filedata_ctor_is_pdu_ctor conf x pdu s s').1 h)
+    simp [followAttrs, followIdx, attr, hp, PduKind.tag, hl]
+  · intro h
+    obtain ⟨fl, dl, h'⟩ := (C11_heap_finished_filedata_ctor_is_pdu_ctor conf x pdu s s').2 h
+    obtain ⟨b, hp, hl⟩ := key .fileData _ _ _ _ _ h'
+    simp [followIdx, hp]
+
+/-- `PusTc.from_composite_fields(header, sec_header, data)` ADOPTS both objects: the new telecommand's `sp_header` and
+    `pus_tc_sec_header` are the caller's objects; `PduHolder(x)` / `holder.pdu = x` keep `x`;
+    `Service1Tm(…, verif_params=vp)` keeps `vp` (so `report.tc_req_id` is the caller's `RequestId` object) -/
+theorem C02_heap_adoption_keeps_caller_object (s : Store) (x : Addr) (hx : x < s.length) (r : Addr) (s' : Store) :
+    (∀ sec n, sec < s.length → (tcFromCompositeFields x sec n).run s = some (r, s') →
+      followAttrs s' r ["sp_header"] = some x ∧ followAttrs s' r ["pus_tc_sec_header"] = some sec) ∧
+    ((newHolder (some x)).run s = some (r, s') → followAttrs s' r ["pdu"] = some x) ∧
+    (∀ apid sub ts, (newService1Tm x apid sub ts).run s = some (r, s') → followIdx s' r [0] = some x ∧
+      ∀ rid cx, s[x]? = some cx → cx.refs[0]? = some (some rid) → rid < s.length →
+        followAttrs s' r ["tc_req_id"] = some rid) := by
+  refine ⟨?_, ?_, ?_⟩
+  · intro sec n hsec h
+    unfold tcFromCompositeFields at h
+    obtain ⟨pid, s1, h1, h2⟩ := (run_bind_some _ _ _ _ _).mp h
+    obtain ⟨_, e⟩ := (ref_run _ _ _ _ _).mp h1
+    subst s1
+    obtain ⟨pt, s2, h3, h4⟩ := (run_bind_some _ _ _ _ _).mp h2
+    obtain ⟨_, e⟩ := (scalAt_run _ _ _ _ _).mp h3
+    subst s2
+    split at h4
+    · exact ((fail_run _ _ _).mp h4).elim
+    · obtain ⟨rfl, rfl⟩ := (new_run _ _ _ _).mp h4
+      constructor <;> simp [followAttrs, followIdx, attr, List.getElem?_append_right] <;>
+        first | exact Nat.lt_succ_of_lt hx | exact Nat.lt_succ_of_lt hsec
+  · intro h
+    obtain ⟨rfl, rfl⟩ := (new_run _ _ _ _).mp h
+    simp [followAttrs, followIdx, attr, List.getElem?_append_right]
+    exact Nat.lt_succ_of_lt hx
+  · intro apid sub ts h
+    unfold newService1Tm newPusTm newSpHeader newPacketId newPsc at h
+    obtain ⟨c, s1, h1, h2⟩ := (run_bind_some _ _ _ _ _).mp h
+    obtain ⟨hcx, e⟩ := (cellAt_run _ _ _ _).mp h1
+    subst s1
+    simp [StateT.run_bind, new_run_eq] at h2
+    obtain ⟨rfl, rfl⟩ := h2
+    refine ⟨by simp [followIdx, List.getElem?_append_right, Nat.add_assoc], ?_⟩
+    intro rid cx hcx' href hrid
+    simp [followAttrs, followIdx, attr, List.getElem?_append_right, List.getElem?_append_left hx, hcx', href, Nat.add_assoc]
+    exact Nat.lt_of_lt_of_le hrid (Nat.le_add_right _ _)
+
 /-- the call does not raise and its result and the store afterwards satisfy `P` -/
 def Holds {α : Type} (r : Option (α × Store)) (P : α → Store → Prop) : Prop := ∃ a s', r = some (a, s') ∧ P a s'
 
